@@ -530,6 +530,8 @@ def _t2():
         ob(ex, st, 'C03:%s:called-with-the-settings-and-the-negotiated-version' % where,
                   z3.And(len(args) == 2, T(args[0]) == T(st.env['settings']), T(args[1]) == T(st.env['version'])),
                   kind='m2')
+        if name in ('getTLS13Suites', 'getEcdheCertSuites', 'getEcdsaSuites', 'getDheCertSuites', 'getDheDsaSuites', 'getCertSuites'):
+            st.ghost['added:' + name] = VBool(z3.BoolVal(True))
         return [Outcome('normal', st, r)]
 
     def only_sources(t):
@@ -553,6 +555,18 @@ def _t2():
                   z3.And('minVersion' in kwargs and T(kwargs['minVersion']) == v,
                          'maxVersion' in kwargs and T(kwargs['maxVersion']) == v), kind='m2')
         st.ghost['candidates'] = r
+        # C19 "compatible settings connect": with a certificate configured (and no verifier database) every family whose
+        # key-exchange group requirement is met IS among the candidates -- TLS 1.3 suites need any shared group (EC or
+        # FFDHE), ECDHE suites a shared curve, DHE suites a shared FFDHE group / none advertised, RSA suites nothing
+        e = st.env
+        if all(k in e for k in ('verifierDB', 'cert_chain', 'ecGroupIntersect', 'ffGroupIntersect')):
+            cert_only = z3.And(z3.Not(truthy(e['verifierDB'])), truthy(e['cert_chain']))
+            ec, ff = truthy(e['ecGroupIntersect']), truthy(e['ffGroupIntersect'])
+            added = lambda n: truthy(st.ghost.get('added:' + n, VBool(z3.BoolVal(False))))
+            for fam, cond in (('getTLS13Suites', z3.Or(ec, ff)), ('getEcdheCertSuites', ec), ('getEcdsaSuites', ec),
+                              ('getDheCertSuites', ff), ('getDheDsaSuites', ff), ('getCertSuites', z3.BoolVal(True))):
+                ob(ex, st, 'C19:candidates-include-%s-whenever-its-group-requirement-is-met' % fam,
+                   z3.Implies(z3.And(cert_only, cond), added(fam)), kind='m2')
         return [Outcome('normal', st, r)]
 
     hooks = {'_sendError': h_sendError, 'getFirstMatching': h_getFirstMatching, '_getMsg': h_getMsg_ch,
@@ -588,7 +602,7 @@ def _t2():
 
 
 _spec2, _check2 = _t2()
-m2s('_serverGetClientHello/cipher-suites', ('C03', 'C20'), SGC, _spec2, check=_check2, setup=sgc_setup,
+m2s('_serverGetClientHello/cipher-suites', ('C03', 'C20', 'C19'), SGC, _spec2, check=_check2, setup=sgc_setup,
         doc='server: the candidate suites are CipherSuite.get*Suites(settings, version) results filtered to the '
             'negotiated version; the yielded suite is the one _server_select_certificate picked from them')
 
